@@ -182,6 +182,130 @@ class ComputeRun:
         return True, "symbolic result terms agree with native runs"
 
 
+class GenericRun(ComputeRun):
+    """One symbolic execution of the real _compute on a rank-sorted game whose teams have a
+    *symbolic number of members* (pyvc/teams.py: map/fold rule, one arbitrary member per team,
+    the aggregates theta_i / s_i as symbols).  Same interface as ComputeRun with one (arbitrary)
+    member per team: post()[i][0], prior[i][0]; spec() is the published update on the aggregates.
+    Raises symrt.UncutLoop when a loop over a team is outside the rule (proof not attempted)."""
+
+    def __init__(self, model, n, ranks, gamma_mode="default"):
+        from .. import teams as T
+        self.model, self.sizes, self.ranks, self.gamma_mode = model, (1,) * n, ranks, gamma_mode
+        self.order, self.player_order = list(range(n)), {}
+        tr = T.FoldLoops()
+        S = self.S = extract.Scratch(model, transforms={extract.MODEL_FILES[model]: (tr,)})
+        S.ns.update(T.REBINDS)
+        self.loops_rewritten = list(tr.rewritten)
+        self.tm = game.stub_tm_real(S)
+        game.stub_phi_real(S)
+        self.ctx = Ctx("R")
+        self.gamma_spec = None
+        box = {}
+
+        def run(ctx):
+            import copy as _copy
+            kw = {}
+            if gamma_mode == "custom":
+                code_g, spec_g = game.uninterpreted_gamma()
+                kw["gamma"] = code_g
+                box["spec_g"] = spec_g
+            m, params = game.mk_model(ctx, S, **kw)
+            ts = [T.SymTeam(ctx, S.rating_cls, i) for i in range(n)]
+            ctx.team_heap = [m]
+            ctx.assume(term(params["kappa"]) <= 1)
+            prior = [[(t.g.mu, t.g.sigma)] for t in ts]
+            model_before = dict(m.__dict__)
+            pristine = _copy.deepcopy(ts)
+
+            def one_path(i):
+                pres = ts if i == 0 else _copy.deepcopy(pristine)
+                if gamma_mode == "custom":
+                    code_g.teams = pres
+                return call(m._compute, pres, list(ranks) if ranks is not None else None)
+            out = ctx.merged(one_path)
+            box.update(m=m, params=params, prior=prior, teams=ts, out=out, model_before=model_before, events=list(ctx.events))
+        recs = explore(self.ctx, run)
+        if len(recs) != 1:
+            raise EngineError(f"_compute forked into {len(recs)} paths")
+        self.rec = recs[0]
+        self.params, self.prior, self.teams, self.out = box["params"], box["prior"], box["teams"], box["out"]
+        self.m, self.model_before, self.events = box["m"], box["model_before"], box["events"]
+        self.objs = [[t.g] for t in self.teams]
+        self.gamma_spec = box.get("spec_g")
+        self.hyps = list(self.rec.pc) + list(self._assumptions())
+        self.facts = list(self.ctx.facts.values())
+
+    def rows_are_the_teams(self):
+        """result[i] has the members of teams[i], in order (the same objects)"""
+        from .. import teams as T
+        if self.out[0] != "return" or not isinstance(self.out[1], list) or len(self.out[1]) != len(self.teams):
+            return False
+        for row, t in zip(self.out[1], self.teams):
+            if not isinstance(row, (T.TeamView, T.SymTeam)) or row.root is not t.root:
+                return False
+        return True
+
+    def post(self):
+        return [[(row.g.mu, row.g.sigma)] for row in self.out[1]]
+
+    def aggregates(self):
+        return [t.theta for t in self.teams], [t.s for t in self.teams]
+
+    def spec(self, pair_scale=1, details=None):
+        from ..symrt import set_cur
+        set_cur(self.ctx)
+        try:
+            X = game.SymX(self.tm)
+            return WS.posterior(self.model, self.prior, self.ranks, self.params["beta"], self.params["kappa"], X,
+                                gamma=self.gamma_spec, pair_scale=pair_scale, details=details, agg=self.aggregates())
+        finally:
+            self.facts = list(self.ctx.facts.values())
+            set_cur(None)
+
+    def second_member(self, i, suffix="k2"):
+        """substitution turning a term about the arbitrary member of team i into the same term
+        about another arbitrary member of that team (fresh Skolem symbols, same assumptions)"""
+        from ..symrt import active
+        with active(self.ctx):
+            sub = self.teams[i].other_member(self.ctx, suffix)
+        self.hyps = list(self.rec.pc) + list(self._assumptions())
+        return sub
+
+    def cross_check(self, seed=0, trials=2):
+        """the symbolic result terms, evaluated at the aggregates of a concrete team, against a
+        native run of the real _compute on teams of random sizes 1..5"""
+        if self.gamma_mode == "custom":
+            return True, "skipped (uninterpreted gamma)"
+        from ..concrete import MODEL_MODULES
+        mod = importlib.import_module(MODEL_MODULES[self.model])
+        wl = importlib.import_module("openskill.models.weng_lin.common")
+        rnd = random.Random(seed)
+        extra = {"V": wl.v, "W": wl.w, "Vt": wl.vt, "Wt": wl.wt}
+        n = len(self.sizes)
+        for _ in range(trials):
+            env = {"m_mu0": 25.0, "m_sigma0": 25 / 3, "m_beta": rnd.uniform(2, 6), "m_kappa": 1e-4, "m_tau": 0.1}
+            M = getattr(mod, self.model)(beta=env["m_beta"], kappa=env["m_kappa"])
+            R_ = getattr(mod, self.model + "Rating")
+            sizes = [rnd.randint(1, 5) for _ in range(n)]
+            game_ = [[R_(rnd.uniform(10, 40), rnd.uniform(1, 9)) for _ in range(sz)] for sz in sizes]
+            vals = [[(p.mu, p.sigma) for p in t] for t in game_]
+            native = M._compute(game_, list(self.ranks) if self.ranks is not None else None)
+            for i in range(n):
+                env[f"theta_{i}"] = sum(mu for mu, _ in vals[i])
+                env[f"s_{i}"] = sum(sg * sg for _, sg in vals[i])
+                env[f"L_{i}"] = float(sizes[i])
+            for i in range(n):
+                for j in range(sizes[i]):
+                    env[f"mu_{i}_k"], env[f"sg_{i}_k"] = vals[i][j]
+                    row = self.out[1][i]
+                    a = evalterm.evalf(term(row.g.mu), env, extra)
+                    b = evalterm.evalf(term(row.g.sigma), env, extra)
+                    if abs(a - native[i][j].mu) > 1e-9 * (1 + abs(a)) or abs(b - native[i][j].sigma) > 1e-9 * (1 + abs(b)):
+                        return False, f"sizes {sizes}: symbolic member result evaluates to ({a}, {b}), native _compute gives ({native[i][j].mu}, {native[i][j].sigma})"
+        return True, "symbolic per-member result terms agree with native runs on teams of random sizes 1..5"
+
+
 def field_rec(name, ok, backend, note, t, fn, shape, replay=None, kind="post", unbounded=False):
     return driver.rec(name, "discharged" if ok else "refuted", backend, t, kind=kind, fn=fn, shape=shape, mode="R",
                       unbounded=unbounded, replay=None if ok else replay, note=note)
